@@ -194,6 +194,12 @@ def g_owners(ow, I):
     return glist(gpair(gpair(gN(I(k)), gbool(b)), gopt(None if rs is None else g_names_sorted(rs, I))) for k, b, rs in ow)
 
 
+def g_held(ow, I):
+    """(key, index of the Extension object reported as owner or None, requirement set or None)"""
+    return glist(gpair(gpair(gN(I(k)), gopt(None if i is None else gnat(i))), gopt(None if rs is None else g_names_sorted(rs, I)))
+                 for k, i, rs in ow)
+
+
 # ------------------------------------------------------------------ building hugr objects from descriptions
 def b_bound(b):
     from hugr import tys
@@ -556,6 +562,34 @@ def rand_shared(rng):
     return {"kind": "shared", "exts": exts, "objs": objs, "prog": prog}
 
 
+def rand_world(rng):
+    """Several Extension OBJECTS whose names mostly coincide (an extension and its copy / its next version;
+    sometimes wholly equal headers), and definition objects handed to them in any pattern."""
+    base = rng.choice(EXT_NAMES)
+    n = rng.randint(2, 4)
+    same_hdr = rng.random() < 0.25
+    exts = []
+    for i in range(n):
+        nm = base if rng.random() < 0.75 else rng.choice(EXT_NAMES)
+        if same_hdr and exts:
+            exts.append({**exts[0], "name": nm})
+        else:
+            exts.append({"name": nm, "version": [rng.choice([0, 1]), rng.randint(0, 3), rng.choice([0, 5]), rng.choice(PRE), None],
+                         "reqs": rng.sample(EXT_NAMES, rng.randint(0, 2))})
+    pool = rand_hist(rng, big=True)["cmds"]
+    objs = pool[: rng.randint(1, 4)] or [{"c": "op", "name": "op", "descr": "", "misc": {}, "binary": True, "sig": None, "func": False}]
+    if not any(o["c"] == "op" for o in objs):
+        objs.append({"c": "op", "name": rng.choice(DEF_NAMES), "descr": rand_descr(rng), "misc": {}, "binary": rng.random() < 0.3, "func": True,
+                     "sig": {"params": [], "in": [rand_type(rng)], "out": [], "reqs": rng.sample(EXT_NAMES, rng.randint(0, 2))}})
+    prog = []
+    if rng.random() < 0.35:
+        # every object to every Extension object first: the Extension objects then hold equal contents (and, with
+        # equal headers, compare == although they are different objects); the random steps follow
+        prog = [[i, j] for j in range(len(objs)) for i in range(n)]
+    prog += [[rng.randrange(n), rng.randrange(len(objs))] for _ in range(rng.randint(2, 10))]
+    return {"kind": "world", "exts": exts, "objs": objs, "prog": prog}
+
+
 def std_files(root):
     out = {}
     for p in sorted(glob.glob(os.path.join(root, "**", "*.json"), recursive=True)):
@@ -740,8 +774,12 @@ class C10(fw.Prop):
             "int/float/string/list payloads), serialised with to_json, loaded with from_json, serialised again; "
             "documents written directly at the serial level (foreign owner fields, key != name, neither signature "
             "nor binary, null/absent misc, absent defaults, duplicate requirements); every file under "
-            "specification/std_extensions loaded through hugr.std._load_extension.  non-trivial = at least one "
-            "operation with a signature, or an error result")
+            "specification/std_extensions loaded through hugr.std._load_extension; worlds of 2-4 Extension OBJECTS "
+            "whose names mostly coincide (different versions, or wholly equal headers) and 1-4 definition objects "
+            "added to them in random or every-object-to-every-extension patterns, observed per Extension object: "
+            "document, its round trip, and for each held operation the index of the Extension object that "
+            "get_extension() returns (by identity).  non-trivial = at least one operation with a signature, or an "
+            "error result; for worlds: an operation object reaches two different Extension objects of one name")
     trusted = [
         "type expressions, constant values and misc values are payloads compared structurally in hugr-py's own "
         "serial form (the type/value codec is property C05); the theorems carry the codec's fixed-point law "
@@ -749,12 +787,14 @@ class C10(fw.Prop):
         "pydantic model_dump_json / model_validate_json and semver parsing are inside the observed implementation, "
         "not the model; Python sets are modelled by sorted duplicate-free lists and observed sets are sorted "
         "(not deduplicated) before comparison",
-        "value semantics: one definition object is added to one extension (aliasing is outside the model, see design.d/C10.md)",
+        "histories/documents: value semantics; shared definition objects: a value-semantic world (owners by name) and a "
+        "heap world with object identity (owners by index), each compared with the implementation per case; attribute "
+        "assignment after adding (e.version = ..., renaming an extension or a definition) is outside both (design.d/C10.md)",
         "regenerated data: coq/gen/StdExt.v is rewritten from the repo on every run by a fail-closed translator "
         "(unexpected JSON field => error); helper table from run-time introspection of hugr.std.*",
     ]
     assumptions = ["extensions without lowering functions; definitions added through the public add_* API or loaded "
-                   "from a document; a definition object belongs to at most one extension"]
+                   "from a document; extensions and definitions are not mutated by attribute assignment after adding"]
 
     # ---------------- regenerated data
     def regenerate(self, ctx):
@@ -825,6 +865,22 @@ class C10(fw.Prop):
         cases.append({"kind": "shared", "exts": [hdr("A"), hdr("B")], "prog": [[0, 0], [1, 0], [0, 1], [1, 1], [0, 0]],
                       "objs": [{"c": "type", "name": "T", "descr": "", "params": [], "bound": ["E", "C"]},
                                {"c": "value", "name": "v", "val": ["true"]}]})
+        # seeded round 2 (C10-d): "already owned by another extension" decided by NAME instead of object identity.
+        # Two Extension objects named alike (two versions of one extension); the definition object held by the
+        # first is added to the second: the first must keep a definition that reports the FIRST object.
+        ver = lambda n, m: {"name": n, "version": [0, m, 0, None, None], "reqs": []}
+        xop = {"c": "op", "name": "x", "descr": "", "misc": {}, "binary": False, "func": True,
+               "sig": {"params": [], "in": [], "out": [], "reqs": []}}
+        cases.append({"kind": "world", "exts": [ver("A", 1), ver("A", 2)], "prog": [[0, 0], [1, 0]], "objs": [xop]})
+        # wholly equal headers (dataclass equality would not tell them apart either), binary-only operation,
+        # a type definition and a value, ping-pong between the two objects
+        cases.append({"kind": "world", "exts": [ver("A", 1), ver("A", 1), ver("B", 1)],
+                      "prog": [[0, 0], [1, 0], [0, 1], [1, 1], [2, 1], [0, 2], [1, 2], [0, 0], [1, 3], [0, 3]],
+                      "objs": [{"c": "op", "name": "b", "descr": "d", "misc": {"k": 1}, "binary": True, "sig": None, "func": False},
+                               xop, {"c": "type", "name": "T", "descr": "", "params": [], "bound": ["E", "C"]},
+                               {"c": "value", "name": "v", "val": ["true"]}]})
+        # two Extension objects that compare == (equal headers, equal contents) are still two objects
+        cases.append({"kind": "world", "exts": [ver("A", 1), ver("A", 1)], "prog": [[0, 0], [1, 0], [1, 0]], "objs": [xop]})
         base = {"version": "0.1.0", "name": "e", "runtime_reqs": [], "types": {}, "values": {}, "operations": {}}
         cases.append({"kind": "doc", "must_load": False, "std": None, "doc": base})
         cases.append({"kind": "doc", "must_load": False, "std": None, "doc": {**base, "operations": {
@@ -844,6 +900,8 @@ class C10(fw.Prop):
             cases.append(rand_shared(rng))
         for _ in range(140 * k):
             cases.append(rand_doc(rng, 0.0 if rng.random() < 0.4 else rng.choice([0.1, 0.3, 0.6])))
+        for _ in range(80 * k):        # appended last: the streams above are unchanged
+            cases.append(rand_world(rng))
         return cases
 
     # ---------------- running the implementation
@@ -931,6 +989,28 @@ class C10(fw.Prop):
                     after = self._guard(lambda: json.loads(Extension.from_json(e.to_json()).to_json()))
                 out.append({"before": before, "after": after, "own": self._owners(e)})
             return {"exts": out}
+        if case["kind"] == "world":
+            exts = [self._new_ext(h) for h in case["exts"]]
+            objs = [self._new_obj(c) for c in case["objs"]]
+            for i, j in case["prog"]:
+                self._add(exts[i], case["objs"][j], objs[j])
+            out = []
+            for e in exts:
+                before = self._guard(lambda: json.loads(e.to_json()))
+                after = before
+                if before[0] == "ok":
+                    after = self._guard(lambda: json.loads(Extension.from_json(e.to_json()).to_json()))
+                held = []
+                for k, od in e.operations.items():
+                    try:
+                        owner = od.get_extension()
+                        idx = next((i for i, x in enumerate(exts) if x is owner), None)     # identity, never ==
+                    except Exception:  # noqa: BLE001
+                        idx = None
+                    pf = od.signature.poly_func
+                    held.append([k, idx, None if pf is None else list(pf.body.runtime_reqs)])
+                out.append({"before": before, "after": after, "held": held})
+            return {"exts": out}
         # document
         box = {}
 
@@ -983,6 +1063,13 @@ class C10(fw.Prop):
             return gapp("CShared", hdrs, glist(self._g_cmd(c, I) for c in case["objs"]),
                         glist(gpair(gnat(i), gnat(j)) for i, j in case["prog"]),
                         glist(gpair(gpair(g_ores(o["before"], I), g_ores(o["after"], I)), g_owners(o["own"], I)) for o in obs["exts"]))
+        if case["kind"] == "world":
+            for h in case["exts"]:
+                I(h["name"])
+            hdrs = glist(gpair(gpair(gN(I(h["name"])), g_version(h["version"], I)), g_names(h["reqs"], I)) for h in case["exts"])
+            return gapp("CWorld", hdrs, glist(self._g_cmd(c, I) for c in case["objs"]),
+                        glist(gpair(gnat(i), gnat(j)) for i, j in case["prog"]),
+                        glist(gpair(gpair(g_ores(o["before"], I), g_ores(o["after"], I)), g_held(o["held"], I)) for o in obs["exts"]))
         return gapp("CDoc", gbool(case["must_load"]), g_sext(case["doc"], I, False),
                     g_ores(obs["r1"], I), g_ores(obs["r2"], I), g_owners(obs["own1"], I))
 
@@ -990,9 +1077,23 @@ class C10(fw.Prop):
     def nontrivial(self, case, obs):
         if case["kind"] == "shared":
             return len({j for _, j in case["prog"]}) < len({(i, j) for i, j in case["prog"]})   # an object reaches two extensions
+        if case["kind"] == "world":
+            return self._same_name_sharing(case)
         if case["kind"] == "hist":
             return any(c["c"] == "op" and c["sig"] is not None for c in case["cmds"])
         return obs["r1"][0] != "ok" or any(o.get("signature") for o in case["doc"]["operations"].values())
+
+    @staticmethod
+    def _same_name_sharing(case):
+        """an operation object reaches two DIFFERENT Extension objects that carry the same name"""
+        for j, c in enumerate(case["objs"]):
+            if c["c"] != "op":
+                continue
+            tgt = {i for i, jj in case["prog"] if jj == j}
+            names = [case["exts"][i]["name"] for i in tgt]
+            if len(names) != len(set(names)):
+                return True
+        return False
 
     def describe(self, case, obs):
         return {"input": case, "observed": obs}
@@ -1008,6 +1109,19 @@ class C10(fw.Prop):
                 if o["after"] != o["before"]:
                     return "ext:shared:roundtrip"
             return "ext:shared"
+        if case["kind"] == "world":
+            for i, (h, o) in enumerate(zip(case["exts"], obs["exts"])):
+                if o["before"][0] != "ok":
+                    return "ext:world:to_json:" + o["before"][0]
+                if any(idx != i for _, idx, _ in o["held"]):
+                    return "ext:world:owner-object"
+                if any(rs is not None and h["name"] not in rs for _, _, rs in o["held"]):
+                    return "ext:world:requirement"
+                if any(d.get("extension") != h["name"] for f in ("types", "values", "operations") for d in o["before"][1][f].values()):
+                    return "ext:world:owner"
+                if o["after"] != o["before"]:
+                    return "ext:world:roundtrip"
+            return "ext:world"
         if case["kind"] == "hist":
             b, a = obs["before"], obs["after"]
             if b[0] != "ok":
@@ -1034,14 +1148,25 @@ class C10(fw.Prop):
         return pre + "kept"
 
     def shrink(self, case):
-        if case["kind"] == "shared":
+        if case["kind"] in ("shared", "world"):
             p = case["prog"]
+            if case["kind"] == "world" and len(case["exts"]) > 1:
+                for x in range(len(case["exts"])):
+                    yield {**case, "exts": case["exts"][:x] + case["exts"][x + 1:],
+                           "prog": [[a - (a > x), b] for a, b in p if a != x]}
             for i in range(len(p)):
                 yield {**case, "prog": p[:i] + p[i + 1:]}
             for j in range(len(case["objs"])):
                 if len(case["objs"]) > 1:
                     yield {**case, "objs": case["objs"][:j] + case["objs"][j + 1:],
                            "prog": [[a, b - (b > j)] for a, b in p if b != j]}
+            if case["kind"] == "world":
+                for x, h in enumerate(case["exts"]):
+                    if h["reqs"] or h["version"][3]:
+                        yield {**case, "exts": case["exts"][:x] + [{**h, "reqs": [], "version": h["version"][:3] + [None, None]}] + case["exts"][x + 1:]}
+                for j, c in enumerate(case["objs"]):
+                    if c["c"] == "op" and (c["misc"] or c["descr"]):
+                        yield {**case, "objs": case["objs"][:j] + [{**c, "misc": {}, "descr": ""}] + case["objs"][j + 1:]}
             return
         if case["kind"] == "hist":
             cs = case["cmds"]
@@ -1076,7 +1201,8 @@ class C10(fw.Prop):
     def neighbours(self, case, rng):
         out = list(self.shrink(case))
         for _ in range(300):
-            out.append(rand_hist(rng) if case["kind"] == "hist" else rand_shared(rng) if case["kind"] == "shared" else rand_doc(rng, 0.3))
+            out.append(rand_hist(rng) if case["kind"] == "hist" else rand_shared(rng) if case["kind"] == "shared"
+                       else rand_world(rng) if case["kind"] == "world" else rand_doc(rng, 0.3))
         return out
 
     def distribution(self, cases, observations):
@@ -1084,8 +1210,15 @@ class C10(fw.Prop):
              "values": 0, "readded_names": 0, "doc_errors": {}, "non_ascii_descr": 0, "versions_with_prerelease_or_build": 0}
         d["shared"] = 0
         d["shared_object_in_two_extensions"] = 0
+        d["world"] = 0
+        d["world_op_object_in_two_same_named_extension_objects"] = 0
+        d["world_equal_headers"] = 0
         for c, o in zip(cases, observations):
-            if c["kind"] == "shared":
+            if c["kind"] == "world":
+                d["world"] += 1
+                d["world_op_object_in_two_same_named_extension_objects"] += self._same_name_sharing(c)
+                d["world_equal_headers"] += any(a == b for x, a in enumerate(c["exts"]) for b in c["exts"][x + 1:])
+            elif c["kind"] == "shared":
                 d["shared"] += 1
                 d["shared_object_in_two_extensions"] += self.nontrivial(c, o)
             elif c["kind"] == "hist":
